@@ -10,7 +10,7 @@ import itertools
 
 from rdv import absint
 from rdv.absint import Cell, Interp, Unsupported, mk_option
-from rdv.core import CheckBroken, Origins, Pos, call_matches, callee_res, norm_path, strip_generics, term_has, term_str
+from rdv.core import CheckBroken, Origins, Pos, call_matches, callee_res, norm_path, strip_generics, switch_edges, term_has, term_str
 
 CONFIGS = ['default']
 LEVEL = 'proof'
@@ -429,6 +429,7 @@ def run(rep, facts, tier):
     rule_10_7(rep, fx)
     rule_10_8(rep, fx)
     rule_10_9(rep, fx)
+    rule_10_10(rep, fx)
 
     # ------------------------------------------------------------ R10.6 crossed roles (shared lint, rdv/swaplint.py)
     from rdv import swaplint
@@ -657,3 +658,29 @@ def rule_10_9(rep, fx):
     rep.check(ok, 'R10.9', 'from_parameter_list/ownership-kind', '%d leaves: absent -> None, Shared -> Shared, Exclusive -> Exclusive' % len(rows),
               'QosPolicies::from_parameter_list does not decode the Ownership kind as announced (%s): a remote endpoint is matched or refused on a kind it did not announce' %
               ('; '.join(bad[:3]) or 'leaves found for %s only' % sorted(seen_kinds)), b.where(rows[0][2], rows[0][3]) if rows else b.where())
+
+
+def rule_10_10(rep, fx):
+    """Incompatible means not matched, also for an endpoint that was matched before and announces itself again with a changed QoS (raised F34: the incompatible arm sent its status
+    and left the proxy in the match map)."""
+    rep.rule('R10.10', 'incompatible => not matched: in Writer::update_reader_proxy / Reader::update_writer_proxy every path of the Some(policy) arm of compliance_failure_wrt passes '
+                       'the removal of exactly that endpoint (reader_lost / remove_writer_proxy with the GUID of the proxy handed in), so an endpoint that re-announces itself with a '
+                       'QoS that became incompatible does not stay matched')
+    for key, remover, gfield in (('rtps::writer::Writer::update_reader_proxy', 'Writer::reader_lost', 'remote_reader_guid'),
+                                 ('rtps::reader::Reader::update_writer_proxy', 'Reader::remove_writer_proxy', 'remote_writer_guid')):
+        b = fx.find(key)
+        rep.analysed(b)
+        og = Origins(b, summaries=True)
+        P = Pos(b)
+        some = [(s_, t_) for s_, t_, c, lab in switch_edges(b, fx, og) if lab == 'Some' and c[0] == 'discr' and term_has(c, lambda x: x[0] == 'call' and x[1].endswith('compliance_failure_wrt'))
+                and c[1][0] == 'call']
+        rem = [(bb, 'term') for bb, t in b.calls() if call_matches(t, remover) and
+               term_has(og.of_operand(t['args'][1], bb, 'term'), lambda x: x[0] == 'field' and x[1] == gfield and term_has(x, lambda y: y == ('param', 2)))]
+        ok = bool(some) and bool(rem)
+        for s_, t_ in some:
+            for r in b.return_blocks():
+                if not P.every_path_passes((t_, 0), (r, 'term'), via_pos=rem) and (t_, 'term') not in rem:
+                    ok = False
+        rep.check(ok, 'R10.10', '%s/incompatible-is-unmatched' % key.rsplit('::', 1)[-1], 'Some(policy) => %s(guid of the proxy) on every path' % remover,
+                  '%s: on an incompatible verdict the endpoint is not taken out of the match map on every path: one that was matched and re-announces itself with a QoS that became '
+                  'incompatible stays matched (data keeps flowing) while the incompatible-QoS status is sent' % key, b.where())
